@@ -229,8 +229,8 @@ func (ex *Executor) drain() {
 		st := ex.work[len(ex.work)-1]
 		ex.work = ex.work[:len(ex.work)-1]
 		ex.pathCount++
-		if ex.pathCount > 20000 {
-			ex.errf("%s: path explosion (> 20000 paths)", ex.unitKey)
+		if ex.pathCount > 3000 {
+			ex.errf("%s: path explosion (> 3000 paths)", ex.unitKey)
 			ex.work = nil
 			return
 		}
@@ -400,6 +400,12 @@ func (ex *Executor) enterBlock(st *State, fr *Frame, to *ssa.BasicBlock) bool {
 	st.events = nil
 	st.segStart = cutName
 	st.segHeap = copyHeap(st.heap)
+	st.segLocals = map[string]Val{}
+	for k, l := range fr.locals {
+		if !l.isAddr {
+			st.segLocals[k] = l.v
+		}
+	}
 	st.path = append(st.path, fmt.Sprintf("L%d", ord))
 	return true
 }
